@@ -133,7 +133,7 @@ def cases(c):
                     for NFFT in (2 * m, 2 * m + 1, 64, 65):
                         out.append({'N': N, 'm': m, 'cplx': cplx, 'NFFT': NFFT, 'fs': 1.0, 'kind': 'noise',
                                     'cont': 'array', 'directed': NFFT in (2 * m, 2 * m + 1)})
-    for i in range(1500 if c.tier == 'quick' else 54000):
+    for i in range(1500 if c.tier == 'quick' else 216000):
         N = int(rng.integers(8, 129 if i % 3 == 0 else 48))
         m = int(rng.integers(2, min(N // 2, 16) + 1))
         NFFT = gen.pick(rng, [2 * m, 2 * m + 1, int(rng.integers(2 * m, 2 * m + 70)), 128, 255, 256])
